@@ -14,6 +14,7 @@ from __future__ import annotations
 import re
 from collections.abc import Callable, Generator, Iterable
 from contextlib import contextmanager
+from fractions import Fraction
 from functools import partial
 from locale import LC_NUMERIC, getlocale, setlocale
 from typing import (
@@ -193,10 +194,17 @@ def formatter(
 
     """
 
+    def _plain_number(x):
+        # Exponents of a registry built with non_int_type=Fraction are Fractions,
+        # which do not support the "n" presentation type used by the formatters.
+        if isinstance(x, Fraction):
+            return x.numerator if x.denominator == 1 else float(x)
+        return x
+
     if as_ratio:
-        fun = lambda x: exp_call(abs(x))
+        fun = lambda x: exp_call(abs(_plain_number(x)))
     else:
-        fun = exp_call
+        fun = lambda x: exp_call(_plain_number(x))
 
     pos_terms: list[str] = []
     for key, value in numerator:
